@@ -41,7 +41,7 @@ MUST_EXPIRE = ["gs.backoff", "gs.peerhave", "gs.iasked", "gs.peerdontwant", "gs.
 
 def consts(peers, maxlen, protos='{"flood", "v10", "v11", "v12", "v13"}', routers='{"gossipsub", "floodsub", "randomsub"}', dev=None):
     c = {"Peers": peers, "Protos": protos, "Routers": routers, "MaxLen": maxlen}
-    for d in DEVS:
+    for d in DEVS + ["DevGiveUp"]:
         c[d] = (d == dev)
     return c
 
@@ -93,7 +93,13 @@ def features(evs):
             feats.add("outFail")
         elif e == "OutReset":
             outdown()
-            s["out"] = "pend"
+            s["deaths"] = s.get("deaths", 0) + 1
+            if s["deaths"] >= 5:            # backoff.go MaxBackoffAttempts = 4: the 5th death is not respawned
+                s["out"] = "none"
+                s["gaveup"] = True
+                feats.add("giveUp")
+            else:
+                s["out"] = "pend"
             feats.add("outReset")
             if s["inb"]:
                 feats.add("outFirst")
@@ -121,6 +127,8 @@ def features(evs):
                 outdown()
             if s["slow"]:
                 feats.add("late")
+            if s.get("gaveup"):
+                feats.add("giveUpThenDown")
             s.update(conn=False, out="none", inb=False)
             s["subs"] = set()
         elif e == "Send":
@@ -129,6 +137,12 @@ def features(evs):
                 feats.add("sendNoOut" if s["wasup"] else "sendNeverOut")
                 if k == "graft":
                     feats.add("graftNoOut")
+                    if s.get("bo"):
+                        feats.add("refusedGraftNoQueue")      # answered with a PRUNE that has no queue to go to
+                if k == "pgflood" and s["out"] not in ("pend", "up"):
+                    feats.add("pgfloodNoQueue")
+                if s.get("gaveup"):
+                    feats.add("sendAfterGiveUp")
             if k == "sub1":
                 s["subs"].add("t1")
             elif k == "sub2":
@@ -139,7 +153,9 @@ def features(evs):
                 s["mesh"] = True
             elif k in ("prune", "prunepx"):
                 s["mesh"] = False
+                s["bo"] = True
             elif k == "pgflood":
+                s["bo"] = True
                 s["mesh"] = False
                 s["ctl"] = s["out"] == "up"
             elif k == "idontwant" and s["out"] == "up":
@@ -151,7 +167,7 @@ def features(evs):
     return feats
 
 
-STRATA = ["meshDown", "unwDown", "fanoutDown", "controlDown", "topicsOutDown", "topicsInDown", "outFirst", "inFirst", "sendNoOut",
+STRATA = ["giveUpThenDown", "sendAfterGiveUp", "refusedGraftNoQueue", "pgfloodNoQueue", "meshDown", "unwDown", "fanoutDown", "controlDown", "topicsOutDown", "topicsInDown", "outFirst", "inFirst", "sendNoOut",
           "sendNeverOut", "graftNoOut", "dup", "blMid", "late", "outFail", "outReset", "reconnect", "send:ihave",
           "send:iwant", "send:prune", "send:prunepx", "send:ext", "send:pubi", "send:pubv", "send:idontwant"]
 
@@ -206,6 +222,14 @@ def tlc_jobs(ctx, acc):
     }
     for d in DEVS:   # non-vacuity: every as-found deviation, switched on, must break the invariant
         jobs["mc-" + d] = dict(cfg=vlib.cfg_text(constants=consts('{"p1"}', 6, dev=d), invariants=["P_C13"], view="MCView"), timeout=600, workers=2)
+    # the respawn budget of the dead-peer backoff (5 deaths of the outbound stream on a live connection = 12 events): the
+    # machine SpecR over a small alphabet; intended give-up holds, the seeded variant "queue stored before the give-up" must fail
+    LR = 14
+    jobs["mc-respawn"] = dict(cfg=vlib.cfg_text(spec="SpecR", constants=consts('{"p1"}', LR, protos='{"v11", "v13"}', routers='{"gossipsub", "floodsub"}'),
+                                                invariants=inv, view="MCView"), timeout=600, workers=2)
+    jobs["mc-DevGiveUp"] = dict(cfg=vlib.cfg_text(spec="SpecR", constants=consts('{"p1"}', LR, protos='{"v11"}', routers='{"gossipsub"}', dev="DevGiveUp"),
+                                                  invariants=["P_C13"], view="MCView"), timeout=600, workers=2)
+    jobs["gen-respawn"] = dict(cfg=vlib.cfg_text(spec="GenSpecR", constants=consts('{"p1"}', LR, **gs_only), invariants=["Emit"]), timeout=600, workers=2)
     if os.environ.get("C13_DEV_SKIP_MC"):      # development aid only (seeded-change trials)
         jobs = {k: v for k, v in jobs.items() if k.startswith("gen-")}
 
@@ -221,11 +245,14 @@ def tlc_jobs(ctx, acc):
         vlib.require_mc_ok(ctx, res["mc2"], "PeerLife (2 peers, <= %d events)" % L2, allow_timeout=ctx.thorough)
         acc["mc"]["1peer_len%d" % L1] = [res["mc1"].distinct, res["mc1"].generated]
         acc["mc"]["2peers_len%d" % L2] = [res["mc2"].distinct, res["mc2"].generated]
-        for d in DEVS:
+        for d in DEVS + ["DevGiveUp"]:
             vlib.require_mc_fails(ctx, res["mc-" + d], "PeerLife with %s" % d, "P_C13")
             acc["mc"][d + "_fails_P_C13"] = True
-    g, w = res["gen-bfs"], res["gen-walks"]
+        vlib.require_mc_ok(ctx, res["mc-respawn"], "PeerLife SpecR (respawn budget, <= %d events)" % LR)
+        acc["mc"]["respawn_len%d" % LR] = [res["mc-respawn"].distinct, res["mc-respawn"].generated]
+    g, w, gr = res["gen-bfs"], res["gen-walks"], res["gen-respawn"]
     vlib.require_mc_ok(ctx, g, "GenSpec BFS <= %d" % LG)
+    vlib.require_mc_ok(ctx, gr, "GenSpecR BFS <= %d" % LR)
     if w.timed_out or w.violated or w.errors:
         raise vlib.Inconclusive("GenSpec -simulate failed: %s (see %s/tlc.out)" % (w.errors[:2], w.dir))
     for r in res.values():
@@ -245,11 +272,14 @@ def tlc_jobs(ctx, acc):
             seen.add(k)
             walks.append(s["evs"])
     walks.sort(key=lambda evs: json.dumps(evs, sort_keys=True))
-    acc["gen"] = {"bfs_max_len": LG, "by_len": {str(k): len(v) for k, v in sorted(by_len.items())}, "two_peer_walks": len(walks)}
-    return by_len, walks
+    respawn = sorted((x["evs"] for x in gr.printed("SCN") if sum(1 for e in x["evs"] if e["e"] == "OutReset") >= 3),
+                     key=lambda evs: json.dumps(evs, sort_keys=True))
+    acc["gen"] = {"bfs_max_len": LG, "by_len": {str(k): len(v) for k, v in sorted(by_len.items())}, "two_peer_walks": len(walks),
+                  "respawn_lifecycles": len(respawn), "respawn_gave_up": sum(1 for evs in respawn if "giveUp" in features(evs))}
+    return by_len, walks, respawn
 
 
-def build_scenarios(ctx, by_len, walks, acc):
+def build_scenarios(ctx, by_len, walks, respawn, acc):
     rng = random.Random(ctx.seed)
     short = [e for n in sorted(by_len) if n <= 5 for e in by_len[n]]
     scns = []
@@ -288,6 +318,14 @@ def build_scenarios(ctx, by_len, walks, acc):
     rng.shuffle(walks)
     for evs in walks[:nw]:
         add(evs)
+    # respawn budget: every lifecycle in which the dead-peer backoff gives the still-connected peer up (thorough; a seeded
+    # sample in quick) and a sample of those that stay within the budget
+    gave = [evs for evs in respawn if "giveUp" in features(evs)]
+    rest = [evs for evs in respawn if "giveUp" not in features(evs)]
+    for k, evs in enumerate(gave if ctx.thorough else stratified(gave, 24, 6, rng)):
+        add(evs, combo=k + ctx.seed, proto=["v11", "v13", "v12", "flood", "v10"][k % 5])
+    for evs in stratified(rest, 200 if ctx.thorough else 30, 3, rng):
+        add(evs)
     # strata with few distinct lifecycles at these lengths (e.g. fanout populated at disconnect): replay their members
     # with several parameter combinations so that the obligation does not hinge on one sampled protocol / score
     want = 12
@@ -305,6 +343,8 @@ def build_scenarios(ctx, by_len, walks, acc):
             k += 1
     for router in ("floodsub", "randomsub"):
         for evs in stratified(short, nr, 4, rng):
+            add(evs, router=router)
+        for evs in gave[:4]:
             add(evs, router=router)
     acc["exhaustive_upto"] = exhaustive_upto
     return scns
@@ -467,7 +507,8 @@ class Obligations:
     def __init__(self):
         self.ob = {k: 0 for k in ["out_dies_first", "in_dies_first", "rpc_on_inbound_outliving_outbound", "rpc_without_outbound_ever",
                                   "duplicate_inbound", "blacklist_midlife", "score_retained", "score_forgotten", "late_validation",
-                                  "newstream_failed", "reconnect", "respawn_after_reset"]}
+                                  "newstream_failed", "reconnect", "respawn_after_reset", "respawn_gave_up_then_disconnected",
+                                  "refused_graft_without_queue"]}
         self.protos, self.populated, self.cleared, self.expired = {}, {}, {}, {}
 
     def update(self, scn, rows):
@@ -476,6 +517,8 @@ class Obligations:
         prev = {p: set() for p in scn["peers"]}
         wasup = {p: False for p in scn["peers"]}
         conns = {p: 0 for p in scn["peers"]}
+        deaths = {p: 0 for p in scn["peers"]}       # outbound streams that died while the connection stayed up
+        gaveup = {p: False for p in scn["peers"]}
         gone_keys = {}
         for ln in rows[1:]:
             lab = ln["act"].get("c13") or {}
@@ -509,6 +552,17 @@ class Obligations:
                         ob["reconnect"] += 1
                 if e == "OutReset" and "pubsub.inboundStreams" in after and "gs.peers" in before and "gs.peers" not in after:
                     ob["out_dies_first"] += 1
+                stream_gone = (stream_key in before) and ((stream_key not in after) if gs else True)
+                if e == "OutReset" and stream_gone and ln["connected"].get(p, False) and "pubsub.deadPeerBackoff" in after:
+                    deaths[p] += 1
+                    if deaths[p] == 5:      # backoff.go MaxBackoffAttempts = 4: this death is not respawned
+                        gaveup[p] = True
+                if e == "ConnDown" and gaveup[p]:
+                    ob["respawn_gave_up_then_disconnected"] += 1
+                    gaveup[p] = False
+                if e == "Send" and gs and lab.get("k") in ("graft", "pgflood") and "pubsub.peers" not in before and "gs.backoff" in after \
+                        and "gs.mesh" not in after and p in ln["recv_from"]:
+                    ob["refused_graft_without_queue"] += 1
                 if e in ("InReset", "InEOF") and "gs.peers" in after and "pubsub.inboundStreams" in before and "pubsub.inboundStreams" not in after:
                     ob["in_dies_first"] += 1
                 if e == "Send" and gs and "pubsub.inboundStreams" in before and "gs.peers" not in before and p in ln["recv_from"]:
@@ -645,8 +699,8 @@ def run(ctx):
         scns = [scn]
         acc["exhaustive_upto"] = 0
     else:
-        by_len, walks = tlc_jobs(ctx, acc)
-        scns = build_scenarios(ctx, by_len, walks, acc)
+        by_len, walks, respawn = tlc_jobs(ctx, acc)
+        scns = build_scenarios(ctx, by_len, walks, respawn, acc)
     ctx.log("replaying %d lifecycles on the real node" % len(scns))
     binp = build_driver(ctx)
     paths, dead = replay(ctx, binp, scns)
